@@ -133,7 +133,7 @@ def run_tlc(scratch, module, cfg=None, workers=1, timeout=600, env=None, simulat
     cmd = ["java"] + jopts + ["-cp", JAR, "tlc2.TLC", "-workers", str(workers), "-metadir", meta,
                               "-cleanup", "-noGenerateSpecTE", "-config", cfg]
     if not deadlock:
-        cmd.append("-deadlock")   # -deadlock DISABLES deadlock checking
+        cmd.append("-deadlock")   # -deadlock DISABLES deadlock checking (deadlock=True keeps it on)
     if simulate:
         cmd += ["-simulate", simulate]
     if depth:
